@@ -34,6 +34,8 @@ def _account_stream(stats, plan, tr):
         stats.probe('mode_' + plan['knobs']['mode'])
         if plan['knobs'].get('filter'):
             stats.probe('filtered_streams')
+        if plan['knobs'].get('warm'):
+            stats.probe('decoder_used_before_' + plan['knobs']['warm']['how'])
         if plan['knobs'].get('compiled') is not None:
             stats.probe('compiled_decoder_streams')
         if tr.get('exc'):
@@ -167,6 +169,8 @@ def _account_def(stats, plan, tr):
             stats.probe('new_message_using_redefined_id')
         if it.get('uses_ncep'):
             stats.probe('new_message_using_replication_only_sequence')
+        if it.get('local_tables'):
+            stats.probe('new_message_with_local_tables_defining_the_same_id')
         if it.get('reused_template'):
             stats.probe('new_message_reusing_an_earlier_descriptor_list')
             if it.get('uses_redefined'):
